@@ -64,6 +64,26 @@ func gen(tier string) []proto.Item {
 			b := base(v, r)
 			items = append(items, proto.Item{Scn: b, Class: v + "/" + rtag + "/baseline"})
 			d := destOf(r)
+			// a genuine reply that is read only after the NEXT probe has gone out (serial engine: later than the hop's own
+			// window; parallel engines: later than the send delay): it answers its own probe, not the most recent one
+			if r.first < d {
+				for _, t := range []int{r.first, r.first + 1} {
+					if t >= d {
+						continue
+					}
+					s := base(v, r)
+					late := 15000
+					if !vi.Parallel {
+						late = s.TimeoutMs*1000 + 10000
+					}
+					s.Hops = map[int]proto.HopSpec{t: {DelayUs: late}}
+					items = append(items, proto.Item{Scn: s, Class: v + "/" + rtag + "/genuine-reply-read-after-the-next-probe"})
+					// ... and the next hop says nothing, so its entry is still free when the late reply is read
+					s2 := base(v, r)
+					s2.Hops = map[int]proto.HopSpec{t: {DelayUs: late}, t + 1: {Silent: true}}
+					items = append(items, proto.Item{Scn: s2, Class: v + "/" + rtag + "/genuine-reply-read-after-the-next-probe/next-hop-silent"})
+				}
+			}
 			// genuine replies to perturb: the first router reply (if any) and the destination reply
 			type gr struct {
 				ttl  int
